@@ -117,12 +117,12 @@ package query
 //@   ensures evalEpoch == old(evalEpoch) + 1
 //@   ensures result1 == nil ==> result0 != nil
 //@   modifies lastEval, evalEpoch
-//@   modifies * except F:query.View. E:query.Record# E:query.Cell# E:value.Primary# E:*query.SortValue# E:query.SortValues# F:query.SortValue. E:int# F:parser. F:value. F:query.ReferenceScope. F:query.Transaction. F:option.Flags. C: E:bool# E:query.BlockScope# F:query.VariableMap.
+//@   modifies * except F:query.View. E:query.Record# E:query.Cell# E:value.Primary# E:*query.SortValue# E:query.SortValues# F:query.SortValue. E:int# F:parser. F:value. F:query.ReferenceScope. F:query.Transaction. F:option.Flags. C: E:bool# E:query.BlockScope# F:query.VariableMap. E:map[string][]int# E:[]string#
 //@ func EvalRowValue
 //@   trusted assumed frame of expression evaluation
 //@   ensures evalEpoch > old(evalEpoch)
 //@   modifies evalEpoch, lastEval
-//@   modifies * except F:query.View. E:query.Record# E:query.Cell# E:*query.SortValue# E:query.SortValues# F:query.SortValue. E:int# F:parser. F:value. F:query.ReferenceScope. F:query.Transaction. F:option.Flags. C: E:bool# E:query.BlockScope# F:query.VariableMap.
+//@   modifies * except F:query.View. E:query.Record# E:query.Cell# E:*query.SortValue# E:query.SortValues# F:query.SortValue. E:int# F:parser. F:value. F:query.ReferenceScope. F:query.Transaction. F:option.Flags. C: E:bool# E:query.BlockScope# F:query.VariableMap. E:map[string][]int# E:[]string#
 
 // ---------------------------------------------------------------------------------------------
 // C07: OFFSET / LIMIT / sort keys
@@ -445,7 +445,7 @@ package query
 // iff the condition evaluated to TRUE, and no other slot is touched.
 //@ func EvaluateSequentially
 //@   trusted assumed: runs fn(scope', i) once for each row index i of view (on worker goroutines); returns the first error
-//@   modifies * except F:query.View. E:query.Record# E:query.Cell# E:value.Primary# E:*query.SortValue# E:query.SortValues# F:query.SortValue. E:int# F:parser. F:value. F:query.ReferenceScope. F:query.Transaction. F:option.Flags. C: E:bool# E:query.BlockScope# F:query.VariableMap.
+//@   modifies * except F:query.View. E:query.Record# E:query.Cell# E:value.Primary# E:*query.SortValue# E:query.SortValues# F:query.SortValue. E:int# F:parser. F:value. F:query.ReferenceScope. F:query.Transaction. F:option.Flags. C: E:bool# E:query.BlockScope# F:query.VariableMap. E:map[string][]int# E:[]string#
 
 // number of kept rows among the first k (counting function; its unfolding and monotonicity are stated as axioms)
 //@ spec func rankOf(s []bool, k int) int reads elems(s)
@@ -838,7 +838,7 @@ package query
 //@ func (*Processor).execute
 //@   trusted assumed: statement execution (the interpreter loop, outside the verified subset) releases exactly the blocks it takes itself and never rewrites the block list of an existing scope
 //@   ghostset blockDirty = true
-//@   modifies * except F:query.ReferenceScope. E:query.BlockScope# F:query.VariableMap.
+//@   modifies * except F:query.ReferenceScope. E:query.BlockScope# F:query.VariableMap. E:map[string][]int# E:[]string#
 //@ func NewProcessorWithScope
 //@   trusted assumed: allocates a processor for the given scope
 //@   ensures result != nil && fresh(result) && result.ReferenceScope == scope
@@ -849,7 +849,7 @@ package query
 //@   property C15
 //@   requires fn != nil && scope != nil && len(scope.Blocks) >= 1
 //@   ensures [releases-no-block-itself] blockReleased == old(blockReleased)
-//@   modifies * except F:query.ReferenceScope. E:query.BlockScope# F:query.VariableMap.
+//@   modifies * except F:query.ReferenceScope. E:query.BlockScope# F:query.VariableMap. E:map[string][]int# E:[]string#
 
 //@ func (*UserDefinedFunction).Execute
 //@   property C15
@@ -993,6 +993,37 @@ package query
 //@ axiom gsum_monotone: forallv(gl, []map[string][]int, forallv(key, string, forall(a, 0, MaxInt64, forall(b, 0, MaxInt64, a <= b ==> gsum(gl, key, a) <= gsum(gl, key, b)))))
 //@ spec def memberOk(view *View, idx int) bool = 0 <= idx && idx < len(view.RecordSet) && len(view.RecordSet[idx]) >= len(view.Header) &&
 //@     forall(c, 0, len(view.Header), len(view.RecordSet[idx][c]) >= 1)
+
+// GROUP BY first phase: a worker collects the keys of its own row range in maps and lists of its own and publishes them only
+// through the two slots of its own index; the key list of the result is assembled afterwards in worker order. (The key list
+// used to be appended by the racing workers under a mutex: the row order of the result changed from run to run; fix: 4b12ac4.)
+//@ func (*GoroutineTaskManager).HasError
+//@   trusted assumed: reads the error slot of the manager
+//@   modifies nothing
+//@ func (*GoroutineTaskManager).SetError
+//@   trusted assumed: stores the first error under the manager's mutex; touches only the manager
+//@   modifies m
+//@ func (*GoroutineTaskManager).Done
+//@   trusted assumed: wait-group bookkeeping of the manager
+//@   modifies m
+//@ func GetComparisonKeysBuf
+//@   trusted assumed: takes a key buffer from the sync.Pool (exclusive to the caller until it is put back)
+//@   ensures result != nil
+//@   modifies nothing
+//@ func PutComparisonkeysBuf
+//@   trusted assumed: resets the buffer and returns it to the pool; touches only the buffer
+//@   modifies nothing
+//@ func SerializeComparisonKeys
+//@   trusted assumed frame: writes only the key buffer (its conversions' temporaries go back to the value pool)
+//@   modifies nothing
+//@ func (*View).group$1
+//@   property C12 C13
+//@   requires 0 <= thIdx && thIdx < len(groupsList) && thIdx < len(groupKeysList)
+//@   requires gm != nil && gm.Number >= 1 && gm.recordLen >= 0 && thIdx < gm.Number && scope != nil && view != nil
+//@   ensures [other-workers-slots-untouched] forall(k, 0, len(groupsList), k != thIdx ==> groupsList[k] == old(groupsList[k]))
+//@   ensures [other-workers-key-lists-untouched] forall(k, 0, len(groupKeysList), k != thIdx ==> same(groupKeysList[k], old(groupKeysList[k])))
+//@   ownwrites C: MD: ML: MV: E:string#
+//@   modifies *
 
 //@ func (*View).group$2
 //@   property C04 C12 C13
